@@ -263,6 +263,12 @@ func prelude(t *testing.T, sizes []int) {
 			{Name: "c", Kind: gen.KSparse, K: 1001, R: 5, Pres: gen.PNotLast, P: 2},
 			{Name: "d", Kind: gen.KMod, K: 1500, Prefix: "\xff"},
 			{Name: "len", Kind: gen.KLen, K: gen.LenWindows[wi%len(gen.LenWindows)], R: 40},
+			// values that hold for exactly n, 1000, 4096 and 65536 rows (buffer,
+			// batch and container boundaries of the writers)
+			{Name: "k", Kind: gen.KConst, Prefix: "all"},
+			{Name: "b1k", Kind: gen.KDiv, K: 1000},
+			{Name: "b4k", Kind: gen.KDiv, K: 4096},
+			{Name: "b64k", Kind: gen.KDiv, K: 65536},
 		}}}
 		a0, b0, c0 := model.Eq("a", "v0"), model.Eq("b", "0"), model.Eq("c", "hit")
 		c := &Case{Data: spec, Probes: true, Exprs: []model.Expr{
